@@ -284,7 +284,7 @@ def harness_path(h):
     """fully qualified harness name: module path of the source file + verif_kani + fn name"""
     rel = h['file'][len('src/'):-len('.rs')]
     parts = [x for x in rel.split('/') if x not in ('lib', 'main', 'mod')]
-    return '::'.join(parts + ['verif_kani', h['name']])
+    return '::'.join(parts + [h.get('module', 'verif_kani'), h['name']])
 
 
 def kani_run(scratch_repo, harnesses, jobs, timeout_total, per_harness_timeout, extra_flags=()):
@@ -391,15 +391,21 @@ def nativize(module_text, harness, values):
     """Turn a `#[cfg(kani)] [pub(crate)] mod verif_kani { … }` module into a native test module: kani attributes
     are erased (so every stub is OFF and the real callees run), `kani::` resolves to the shim, and (if harness
     is given) one #[test] feeds the verifier's concrete values to the harness."""
-    t = module_text
-    t = re.sub(r'#\[cfg\(kani\)\]', '#[cfg(test)]\n#[allow(warnings)]', t, count=1)
-    t = re.sub(r'^\s*#\[kani::[^\n]*\]\s*\n', '', t, flags=re.M)
-    t = re.sub(r'#\[cfg_attr\(kani,[^\n]*\)\]\s*\n', '', t)
-    idx = t.rfind('}')
-    test = ''
-    if harness:
-        vals = ', '.join('vec![' + ', '.join(str(b) for b in v) + ']' for v in values)
-        test = f'''
+    # a harness file may hold several top-level `#[cfg(kani)] mod …` items: each one is nativized on its own
+    chunks = re.split(r'(?=#\[cfg\(kani\)\])', module_text)
+    out = []
+    for t in chunks:
+        if not t.startswith('#[cfg(kani)]'):
+            out.append(t)
+            continue
+        t = t.replace('#[cfg(kani)]', '#[cfg(test)]\n#[allow(warnings)]', 1)
+        t = re.sub(r'^\s*#\[kani::[^\n]*\]\s*\n', '', t, flags=re.M)
+        t = re.sub(r'#\[cfg_attr\(kani,[^\n]*\)\]\s*\n', '', t)
+        idx = t.rfind('}')
+        test = ''
+        if harness and re.search(r'\b' + re.escape(harness) + r'\b', t):
+            vals = ', '.join('vec![' + ', '.join(str(b) for b in v) + ']' for v in values)
+            test = f'''
     #[test]
     fn verif_replay_entry() {{
         kani::load(vec![{vals}]);
@@ -414,8 +420,9 @@ def nativize(module_text, harness, values):
         }}
     }}
 '''
-    t = t[:idx] + '\n    pub(crate) mod kani {\n' + SHIM + '\n    }\n' + test + t[idx:]
-    return t
+        t = t[:idx] + '\n    pub(crate) mod kani {\n' + SHIM + '\n    }\n' + test + t[idx:]
+        out.append(t)
+    return ''.join(out)
 
 
 def native_replay(rel, harness, values, bin_crate, timeout=900):
@@ -669,7 +676,7 @@ def main():
         grouped = {}
         replays_done = {}
         playbacks_left = [2]
-        refuted.sort(key=lambda x: {'kani': 0, 'native': 1}.get(x['engine'], 2))
+        refuted.sort(key=lambda x: ({'kani': 0, 'native': 1}.get(x['engine'], 2), (kani_results.get(x.get('harness'), {}).get('time_s') or 0) if x['engine'] == 'kani' else 0))
         for x in refuted:
             grouped.setdefault(x['obligation'], []).append(x)
         for oid, items in grouped.items():
@@ -694,8 +701,11 @@ def main():
                 rep['failing_input_and_message'] = x0.get('detail', '')
             if x0['engine'] == 'kani' and not a.no_replay and x0.get('replay') != 'shim':
                 rep['note'] = 'harness postcondition mentions stub-recorded ghost state: no generic native replay; see the native stand-in violations of this run for a concrete failing input, if any'
+            _slow = x0['engine'] == 'kani' and (kani_results.get(x0.get('harness'), {}).get('time_s') or 0) > 150 and playbacks_left[0] < 2
+            if _slow:
+                playbacks_left[0] = 0
             if x0['engine'] == 'kani' and not a.no_replay and x0.get('replay') == 'shim' and playbacks_left[0] <= 0:
-                rep['note'] = 'concrete playback skipped (budget of 2 per run); see the other replay files of this run'
+                rep['note'] = 'concrete playback skipped (budget: two per run, one if the harness is slow); see the other replay files of this run'
             if x0['engine'] == 'kani' and not a.no_replay and x0.get('replay') == 'shim' and playbacks_left[0] > 0:
                 playbacks_left[0] -= 1
                 tests, tail = kani_playback(sc.repo, x0['harness_id'], 1800)
@@ -813,7 +823,8 @@ def main():
         for d in sorted(discharged, key=lambda d: -(d.get('time_s') or 0))[:15]:
             log(f"  time {d.get('time_s')}s {d['id']}")
     for u in undecided:
-        log(f"UNDECIDED: {u.get('obligation')}: {str(u.get('reason'))[:400]}")
+        _r = str(u.get('reason'))
+        log(f"UNDECIDED: {u.get('obligation')}: {_r[:300]}{' … ' + _r[-500:] if len(_r) > 800 else _r[300:]}")
     log(f"{prop} tier={a.tier}: discharged {len(complete_ok)} complete units ({n_checks_complete} checks), "
         f"{len(bounded_ok)} bounded units; refuted {len(grouped)}; undecided {n_undecided}; wall {wall:.0f}s")
     if violations:
